@@ -23,7 +23,7 @@ static Report *R;
 
 static std::string zs(mpz_srcptr z) { char *s = mpz_get_str(NULL, 62, z); std::string r(s); free(s); return r; }
 
-struct Contribution { std::string key, c, r; mpz_t hj; };
+struct Contribution { std::string key, c, r, x; mpz_t hj; };
 
 struct Setup {
 	int kind;                       // 0 Schnorr random g, 1 Schnorr canonical g, 2 QR group
@@ -50,9 +50,10 @@ static BarnettSmartVTMF_dlog *make_instance(const Setup &S, uint64_t seed)
 }
 
 // mutation catalogue for a contribution (key, c, r): returns the stream text; "equivalent" mutations are not in here
-static const int NMUT = 17;
+static const int NMUT = 18;
 static const char *MUTNAME[NMUT] = {"key=0", "key=1", "key=p-1", "key=p", "key+p", "p-key (order 2q)", "key*g (proof of the original key)",
-	"c+1", "c=0", "c+2^300", "r+1", "r+q (out of range)", "r=0", "proof missing", "c missing", "other player's key with this proof", "key-p (negative)"};
+	"c+1", "c=0", "c+2^300", "r+1", "r+q (out of range)", "r=0", "proof missing", "c missing", "other player's key with this proof", "key-p (negative)",
+	"crafted key p - g^x with an even-challenge proof made with x (satisfies the Schnorr equation, not in the group)"};
 static std::string mutate(const Setup &S, size_t j, int m)
 {
 	const Contribution &C = S.others[j];
@@ -79,6 +80,23 @@ static std::string mutate(const Setup &S, size_t j, int m)
 		case 15: mpz_set_str(key, S.others[(j + 1) % S.others.size()].key.c_str(), 62); break;
 		case 16: mpz_sub(key, key, S.p); break;
 	}
+	if (m == 17)
+	{
+		// key' = -g^x; t = g^v; c = H(p, q, g, key', t); r = v - c x mod q.  Verification computes g^r key'^c = g^v (-1)^c,
+		// so the proof passes the equation exactly when c is even: retry v until it is.  Only membership can refuse this.
+		mpz_t x, v, tt;
+		mpz_init_set_str(x, C.x.c_str(), 62), mpz_init(v), mpz_init(tt);
+		mpz_sub(key, S.p, key);
+		for (unsigned long tries = 1; tries < 200; tries++)
+		{
+			mpz_set_ui(v, 1000 + tries);
+			mpz_powm(tt, S.g, v, S.p);
+			tmcg_mpz_shash(c, 5, S.p, S.q, S.g, key, tt);
+			if (mpz_even_p(c)) break;
+		}
+		mpz_mul(r, c, x), mpz_neg(r, r), mpz_add(r, r, v), mpz_mod(r, r, S.q);
+		mpz_clear(x), mpz_clear(v), mpz_clear(tt);
+	}
 	std::string out = zs(key) + "\n";
 	if (!drop_proof)
 	{
@@ -93,7 +111,7 @@ struct Ev { char k; int j, m; };
 static std::string ev_str(const Ev &e) { char b[32]; snprintf(b, sizeof b, "%c%d.%d", e.k, e.j, e.m); return b; }
 static std::string hist_str(const std::vector<Ev> &h) { std::string r; for (size_t i = 0; i < h.size(); i++) r += (i ? " " : "") + ev_str(h[i]); return r; }
 
-struct Model { std::set<int> present; bool finalized; };
+struct Model { std::set<int> present; bool finalized; bool own_echo; };
 
 struct Live {
 	BarnettSmartVTMF_dlog *v;
@@ -116,12 +134,13 @@ static void expect_h(const Setup &S, Live &L, const std::string &when)
 {
 	mpz_t want;
 	mpz_init_set(want, L.v->h_i);
+	if (L.ref.own_echo) mpz_mul(want, want, L.v->h_i), mpz_mod(want, want, S.p);
 	for (std::set<int>::iterator i = L.ref.present.begin(); i != L.ref.present.end(); ++i)
 		mpz_mul(want, want, S.others[*i].hj), mpz_mod(want, want, S.p);
 	if (mpz_cmp(want, L.v->h) && L.fail.empty())
 		L.fail = "common key h differs from h_own * product of accepted keys " + when;
-	if (L.v->KeyGenerationProtocol_NumberOfKeys() != L.ref.present.size() && L.fail.empty())
-		L.fail = "number of stored keys " + str(L.v->KeyGenerationProtocol_NumberOfKeys()) + " != reference " + str(L.ref.present.size()) + " " + when;
+	if (L.v->KeyGenerationProtocol_NumberOfKeys() != L.ref.present.size() + (L.ref.own_echo ? 1 : 0) && L.fail.empty())
+		L.fail = "number of stored keys " + str(L.v->KeyGenerationProtocol_NumberOfKeys()) + " != reference " + str(L.ref.present.size() + (L.ref.own_echo ? 1 : 0)) + " " + when;
 	mpz_clear(want);
 }
 
@@ -138,6 +157,19 @@ static void apply(const Setup &S, Live &L, const Ev &e, uint64_t seed)
 			expect = true;
 			ret = L.v->KeyGenerationProtocol_UpdateKey(in);
 			if (ret) L.ref.present.insert(e.j);
+		}
+		else if (e.k == 'O')
+		{
+			// the player's own published contribution comes back (self-delivery on a broadcast channel / replay): on this
+			// library it is an ordinary valid contribution, accepted once and then part of the product
+			std::stringstream pk;
+			mcenv::CoinSource cs(seed, 123);
+			mcenv::cur = &cs;
+			L.v->KeyGenerationProtocol_PublishKey(pk);
+			mcenv::cur = nullptr;
+			expect = true;
+			ret = L.v->KeyGenerationProtocol_UpdateKey(pk);
+			if (ret) L.ref.own_echo = true;
 		}
 		else if (e.k == 'X')
 		{
@@ -201,7 +233,7 @@ static Live *build(const Setup &S, const std::vector<Ev> &h, uint64_t seed)
 {
 	Live *L = new Live();
 	L->v = make_instance(S, seed);
-	L->ref.finalized = false;
+	L->ref.finalized = false, L->ref.own_echo = false;
 	for (size_t i = 0; i < h.size() && L->fail.empty(); i++) apply(S, *L, h[i], seed);
 	return L;
 }
@@ -234,6 +266,7 @@ static void explore(const Setup &S, const std::string &cell, uint64_t seed, size
 			for (int m = 0; m < NMUT; m++) en.push_back(Ev{'X', (int)j, m});
 		}
 		en.push_back(Ev{'U', 0, 0});
+		if (!cur->ref.own_echo) en.push_back(Ev{'O', 0, 0});
 		en.push_back(Ev{'F', 0, 0});
 		delete cur->v; delete cur;
 		for (size_t i = 0; i < en.size(); i++)
@@ -246,7 +279,7 @@ static void explore(const Setup &S, const std::string &cell, uint64_t seed, size
 			if (en[i].k == 'X' || en[i].k == 'U') refused++;
 			if (!L->fail.empty())
 			{
-				R->viol(std::string("keyset/") + (en[i].k == 'A' ? "add" : en[i].k == 'X' ? std::string("accepts-malformed/") + MUTNAME[en[i].m] : en[i].k == 'R' ? "remove" : en[i].k == 'U' ? "remove-unknown" : "finalize"),
+				R->viol(std::string("keyset/") + (en[i].k == 'A' ? "add" : en[i].k == 'O' ? "own-echo" : en[i].k == 'X' ? std::string("accepts-malformed/") + MUTNAME[en[i].m] : en[i].k == 'R' ? "remove" : en[i].k == 'U' ? "remove-unknown" : "finalize"),
 					L->fail + " ; history: " + hist_str(h2), cell);
 				delete L->v; delete L;
 				R->counters["states"] += states, R->counters["transitions"] += transitions;
@@ -257,6 +290,7 @@ static void explore(const Setup &S, const std::string &cell, uint64_t seed, size
 			std::string skey;
 			for (std::set<int>::iterator q = L->ref.present.begin(); q != L->ref.present.end(); ++q) skey += str(*q) + ",";
 			skey += L->ref.finalized ? "F" : "-";
+			skey += L->ref.own_echo ? "O" : "-";
 			if (state_of_set.count(skey) && state_of_set[skey] != c)
 				R->viol("keyset/state-depends-on-history", "two histories with the same accepted set reach different states; history: " + hist_str(h2), cell);
 			state_of_set[skey] = c;
@@ -299,6 +333,7 @@ static void make_setup(Setup &S, int kind, size_t k, unsigned long psize, unsign
 		Contribution C;
 		std::getline(pk, C.key), std::getline(pk, C.c), std::getline(pk, C.r);
 		mpz_init_set(C.hj, o->h_i);
+		C.x = zs(o->x_i);
 		S.others.push_back(C);
 		delete o;
 	}
